@@ -45,14 +45,14 @@ func (y *sys) viaCoordinator(k string, e, last int) bool {
 	return y.co != nil && (k != "every" || last%e == 0)
 }
 
-func (y *sys) coordSchedule(id int, k string, e, o, last int) {
+func (y *sys) coordSchedule(id int, k string, e, o, end, last int) {
 	co := y.co
 	to := &taskmodel.Task{ID: platform.ID(y.real[id]), Status: string(taskmodel.TaskActive), Offset: time.Duration(o) * time.Second,
 		CreatedAt: base.Add(-time.Hour)}
 	if k == "every" {
 		to.Every = fmt.Sprintf("%ds", e)
 	} else {
-		to.Cron = schedString(k, e)
+		to.Cron = schedString(k, e, end)
 	}
 	// three ways to say "last scheduled at `last`"
 	lc, ls := last, -1
@@ -68,7 +68,7 @@ func (y *sys) coordSchedule(id int, k string, e, o, last int) {
 	if ls >= 0 {
 		to.LatestScheduled = base.Add(time.Duration(ls) * time.Second)
 	}
-	y.t.Event("Call", rt.M{"t": "S", "id": id, "k": k, "e": e, "o": o, "via": "coord", "lc": lc, "ls": ls})
+	y.t.Event("Call", rt.M{"t": "S", "id": id, "k": k, "e": e, "o": o, "end": end, "via": "coord", "lc": lc, "ls": ls})
 	var rerr error
 	from := co.tasks[id]
 	y.within("TaskCreated/TaskUpdated", func() {
@@ -78,8 +78,10 @@ func (y *sys) coordSchedule(id int, k string, e, o, last int) {
 			rerr = co.c.TaskUpdated(context.Background(), from, to)
 		}
 	})
-	co.tasks[id] = to
-	co.sched[id] = true
+	if rerr == nil { // an error (the schedule has no occurrence left) leaves everything as it was
+		co.tasks[id] = to
+		co.sched[id] = true
+	}
 	y.t.Event("Ret", rt.M{"err": errStr(rerr)})
 	y.kick()
 }
